@@ -2,7 +2,7 @@
 
 
 def run(ctx):
-    if not ctx.build_harness():
+    if not ctx.build_harness(["c16.go"]):
         return
     ctx.forbidden_scan()
     # the driver (model + acceptor) must build even if a proof breaks
